@@ -13,7 +13,9 @@ def run(prog, rep, tier):
                   "chain produced; A7: build_exec/build_pred interpreted from source on a node of every sub-expression kind (?( ), [ ], let/infix operand, "
                   "*, +, if-else, ALT, OR, format splice, block) with every kind of operand (bare and SCOPE-wrapped), every outcome of a name lookup and "
                   "0-2 kept values: the operand's chain is always fed by an origin/tine created for it, never by the incoming stream (only a "
-                  "one-value SUBX_EVAL of a literal may be built in place).")
+                  "one-value SUBX_EVAL of a literal may be built in place); A8: in every function returning pred_result that can write an "
+                  "`Error…` message to std::cerr (directly or through a helper that always reports), forward dataflow over its CFG: no return is "
+                  "reached with the error reported and a value that is provably yes or no (an erroring predicate answers fail, so neither ?x nor !x holds).")
     rep.not_decided = "that each predicate computes the documented truth value for its operands."
     apply(rep, "A1", "predicates are read-only on their stack", r_pred.a1(prog), 20)
     apply(rep, "A2", "op_assert yields the pulled stack unchanged", r_pred.a2(prog), 1)
@@ -30,4 +32,5 @@ def run(prog, rep, tier):
     apply(rep, "A6", "let/infix/capture yield the outer stack, never the sub-expression's", r_pred.a6(prog), 2)
     import r_build
     apply(rep, "A7", "every sub-expression context builds its operand on a stream of its own, never on the incoming stack (abstract evaluation of build_exec)", r_build.a7(prog), 10)
+    apply(rep, "A8", "a predicate that reports an error answers fail", r_pred.a8(prog), 4)
     maybe_mutants("C04", rep, tier)
